@@ -24,9 +24,10 @@ HandleOp == \E cmd \in HandleCmds  : Apply(cmd)
 Erase    == \E cmd \in EraseCmds   : Apply(cmd)
 Bg       == \E cmd \in BgCmds      : Apply(cmd)
 Task     == \E cmd \in TaskCmds    : Apply(cmd)
+Arm      == \E cmd \in ArmCmds     : Apply(cmd)
 Quiesce  == Apply(QuiesceCmd)
 
-Next == Spawn \/ Start \/ PollC \/ Burst \/ Nest \/ Advance \/ HandleOp \/ Erase \/ Bg \/ Task \/ Quiesce
+Next == Spawn \/ Start \/ PollC \/ Burst \/ Nest \/ Advance \/ HandleOp \/ Erase \/ Bg \/ Task \/ Arm \/ Quiesce
 Spec == Init /\ [][Next]_vars
 
 C01 == InvC01(mon)
